@@ -196,6 +196,17 @@ func c11Scenarios(thorough bool) []streamScenario {
 		out = append(out, streamScenario{Producers: [][]int{body}, FailAfter: -1, Bound: -1, ShutAt: -1})
 	}
 	out = append(out, streamScenario{Producers: [][]int{{-1, 0}, {1, -1, -1, 2}}, FailAfter: -1, Bound: -1, ShutAt: -1})
+	// the other direction is alive too: the peer's hello (announcing a later or an earlier version, as
+	// hellos do before negotiation) arrives and is consumed while the producers submit
+	for _, hf := range []int{1, 6, 7} {
+		out = append(out, streamScenario{Frames: []int{hf}, Producers: [][]int{{0, 1}}, FailAfter: -1, Bound: -1, ShutAt: -1},
+			streamScenario{Frames: []int{hf}, Producers: [][]int{{1}, {0}}, FailAfter: -1, Bound: -1, ShutAt: -1})
+	}
+	// time passes: when everything has come to rest the clock moves on to the next timer the stream
+	// has set (if any), twice; nothing may reach the connection that was not submitted
+	for _, p := range [][][]int{{{0}}, {{0, 1}}, {{1}, {2, 0}}} {
+		out = append(out, streamScenario{Producers: p, Clock: 2, FailAfter: -1, Bound: -1, ShutAt: -1})
+	}
 	// a write that times out after accepting part of a frame (0, 1, 5, all-but-one bytes), at the
 	// first, second and third write: a failed write ends the process by design; the bytes written
 	// until then must be whole frames followed by the beginning of the right one
